@@ -6,6 +6,8 @@ positions-multiline-placeholder:  the same, for explicit fields whose placeholde
 tabstops-auto:        abbreviations without explicit fields: one tabstop per empty attribute value and per empty,
                       not self-closed leaf, numbered 1, 2, 3, ... in document order, each at its place
 tabstops-explicit:    explicit ${n} / ${n:ph}: differences inside one value kept, number sets of different values disjoint
+tabstops-comment:     the same with comments on and explicit fields in the attribute values that the comments repeat (round 4)
+callback-positions-multiline-literal:  positions, for quoted literals (stylesheet strings, attribute values) that span lines (round 4)
 """
 import bisect
 import random
@@ -136,11 +138,15 @@ def check_positions(abbr, kind, syntax, options, text, mode):
 # ---------------------------------------------------------------------------------------------
 # tabstop numbering, driven by the generator's model of what was written
 
-def _slots(nodes, out):
+def _slots(nodes, out, comments=None):
     """document-order list of the values that can hold fields: ('attr', elem, attr, value|None) / ('leaf', elem) /
-    ('text', elem, text)"""
+    ('text', elem, text) / ('comment', elem, attr, value): the value of an attribute repeated by the comment printed
+    before / after a commented element (comments = c13_gen.comment_config(options) or None)"""
     for nd in nodes:
         for _ in range(nd['count']):
+            commented = bool(comments and nd['name'] and any(an in comments[0] for an, _ in nd['attrs']))
+            if commented:
+                _comment_slots(nd, comments[1], out)
             if nd['name']:
                 for an, av in nd['attrs']:
                     out.append(('attr', nd['name'], an, av))
@@ -148,19 +154,44 @@ def _slots(nodes, out):
                 out.append(('text', nd['name'], nd['text']))
             elif nd['name'] and not nd['children'] and not nd['selfclose']:
                 out.append(('leaf', nd['name']))
-            _slots(nd['children'], out)
+            _slots(nd['children'], out, comments)
+            if commented and not nd['selfclose']:
+                _comment_slots(nd, comments[2], out)
     return out
+
+
+def _comment_slots(nd, names, out):
+    values = dict(nd['attrs'])
+    for an in names:
+        if values.get(an) is not None:
+            out.append(('comment', nd['name'], an, values[an]))
 
 
 RE_FIELD = re.compile(r'\$\{(\d+)(?::([^}]*))?\}')
 
 
 def check_tabstops(nodes, syntax, options):
+    return _check_tabstops(nodes, syntax, options, None)
+
+
+def check_tabstops_comment(nodes, syntax, options):
+    """tabstops of a document with comments: the comment of an element repeats attribute values, each repetition is one
+    more value of the document (at its place in document order: before the open tag / after the close tag)"""
+    from .c13_gen import comment_config
+    return _check_tabstops(nodes, syntax, options, comment_config(options))
+
+
+def _in_comment(final, off):
+    return final.rfind('<!--', 0, off) > final.rfind('-->', 0, off)
+
+
+def _check_tabstops(nodes, syntax, options, comments):
     abbr = render_abbr(nodes)
     final, calls = _run(abbr, 'markup', syntax, options, None, 'tm')
     fields = sorted([c for c in calls if c[0] == 'field'], key=lambda c: c[3])
     where = '%r (%s, %r) -> %r: ' % (abbr, syntax, options, final)
-    slots = _slots(nodes, [])
+    slots = _slots(nodes, [], comments)
+    last_auto = 0
     k = 0
     used = {}            # output index -> slot number
     explicit = any(s[0] != 'leaf' and s[-1] is not None and '${' in s[-1] for s in slots)
@@ -201,6 +232,16 @@ def check_tabstops(nodes, syntax, options):
             elif slot[0] == 'leaf':
                 if not re.search(r'<%s(\s[^<>]*)?>\s*$' % re.escape(slot[1]), before) or not re.match(r'\s*</%s>' % re.escape(slot[1]), after):
                     return where + 'tabstop %d expected as the content of leaf <%s>, found between %r and %r' % (gi, slot[1], before[-20:], after[:20])
+            if comments is not None:
+                # every template of the generator is one <!-- ... --> : a repeated value lies inside one, no other value does
+                if (slot[0] == 'comment') != _in_comment(final, off):
+                    return where + 'tabstop %d of value %r found %s a comment (offset %d)' % (
+                        gi, slot, 'inside' if slot[0] != 'comment' else 'outside', off)
+                if slot[0] == 'leaf' or (slot[0] == 'attr' and slot[3] is None):
+                    # "numbered ... in document order": whatever explicit fields do, automatic tabstops grow
+                    if gi <= last_auto:
+                        return where + 'automatic tabstop of %r has number %d, an earlier one has %d' % (slot, gi, last_auto)
+                    last_auto = gi
         if not explicit and (slot[0] == 'leaf' or slot[3 if slot[0] == 'attr' else 2] is None):
             auto_seen += 1
             if got[0][1][0] != auto_seen:
@@ -271,6 +312,43 @@ def tabstop_cases(rng, n, fields):
         yield (nodes, rng.choice(TAG_SYNTAXES), o if rng.random() < 0.8 else {})
 
 
+def comment_cases(rng, n):
+    from .c13_gen import comment_tree, comment_options
+    for _ in range(n):
+        nodes = comment_tree(rng)
+        yield (nodes, rng.choice(TAG_SYNTAXES), comment_options(rng, random_options(rng) if rng.random() < 0.8 else {}))
+
+
+MULTILINE_LITERALS = [
+    # stylesheet: quoted string values that span lines
+    ("cnt'a\nb'", 'stylesheet'), ('ff"Foo\r\nBar"+m10', 'stylesheet'), ("q'\n'+p", 'stylesheet'), ("p10+bgi:url('x\ry')+m${1}", 'stylesheet'),
+    ("c'x\n'!+m", 'stylesheet'), ('bg"a\n\nb"-${1:x}-\'c\nd\'+p${2}', 'stylesheet'),
+    # markup: quoted attribute values that span lines
+    ('p[title="a\nb"]>b', 'markup'), ("ul>li[data-x='x\r\ny' lang]*2", 'markup'), ('div[title="a\n"]+p[t="\nb${1:c}"]{x}', 'markup'),
+    ('a[href="x\ry"]{t}+i', 'markup'),
+]
+
+
+def literal_cases(rng, n, rows):
+    from .c13_gen import style_string_abbr, markup_literal_tree
+    for syn in STYLE_SYNTAXES:
+        abbrs = [a for a, kind in MULTILINE_LITERALS if kind == 'stylesheet'] + [style_string_abbr(rng) for _ in range(n)]
+        for a in abbrs:
+            yield (a, 'stylesheet', syn, {}, None, 'tm')
+            for _ in range(rows):
+                yield (a, 'stylesheet', syn, random_options(rng), None, rng.choice(MODES))
+    for syn in MARKUP_SYNTAXES:
+        abbrs = [a for a, kind in MULTILINE_LITERALS if kind == 'markup']
+        while len(abbrs) < n + 4:
+            t = markup_literal_tree(rng)
+            if t:
+                abbrs.append(render_abbr(t))
+        for a in abbrs:
+            yield (a, 'markup', syn, {}, None, 'tm')
+            for _ in range(rows):
+                yield (a, 'markup', syn, random_options(rng), rng.choice(WRAP_TEXTS), rng.choice(MODES))
+
+
 def _no_children_under_fields(nodes):
     # a text with fields *and* children is the "children go into the first field" snippet form: other property
     for nd in nodes:
@@ -319,4 +397,32 @@ def run(tier, seed):
                 'different values (including automatic tabstops) are disjoint; placeholders are passed unchanged', exhaustive=False)
     run_parallel_sorted(c4, 'bounded.c13', 'check_tabstops', tabstop_cases(rng, nt, True), chunk=300)
     c4.done()
-    return [c1, c2, c3, c4]
+
+    # round 4.  A separate generator (seeded from the run seed) so that the cases of the clauses above stay what they were.
+    rng4 = random.Random(seed * 7919 + 4)
+    nc = 12000 if quick else 120000
+    c5 = Clause('tabstops-comment', 'B',
+                'seeded random trees with comments switched on (comment.enabled) in which about half of the elements have an id and / or class '
+                'value with explicit ${n} / ${n:ph} fields (other attribute values and texts with fields, empty attributes, leaves, voids, '
+                'repeaters as in tabstops-explicit); comment.trigger, comment.before and comment.after from small tables (default, '
+                'templates that print id / class / title / role / lang / data-x, the same attribute twice, empty)',
+                '%d trees, depth <= 4, width <= 3, syntaxes %r, random output options' % (nc, TAG_SYNTAXES),
+                'as tabstops-explicit, where every attribute value repeated by a comment is one more value of the document, placed before '
+                'the open tag / after the close tag of its element: relative numbering kept inside it, its numbers used by no other value '
+                '(automatic tabstops included), it lies inside <!-- -->, no other tabstop does; automatic tabstops grow in document order',
+                exhaustive=False)
+    run_parallel_sorted(c5, 'bounded.c13', 'check_tabstops_comment', comment_cases(rng4, nc), chunk=300)
+    c5.done()
+
+    nl, lrows = (30, 2) if quick else (300, 4)
+    c6 = Clause('callback-positions-multiline-literal', 'B',
+                'abbreviations with a quoted literal that spans several lines (LF / CRLF / CR / empty lines, breaks at the start and at '
+                'the end of the literal): %d curated + %d random stylesheet abbreviations per stylesheet syntax %r (quoted string values alone, '
+                'next to numbers / fields / other strings / !important, inside function calls; summed with ordinary properties, '
+                'multi-line snippets and fields) and 4 curated + %d random trees per markup syntax %r with multi-line attribute values / texts'
+                % (len([1 for _, k in MULTILINE_LITERALS if k == 'stylesheet']), nl, STYLE_SYNTAXES, nl, MARKUP_SYNTAXES),
+                'defaults + %d random (options, wrap text, callback style) rows per abbreviation and syntax' % lrows,
+                'as callback-positions', exhaustive=False)
+    run_parallel_sorted(c6, 'bounded.c13', 'check_positions', literal_cases(rng4, nl, lrows), chunk=40)
+    c6.done()
+    return [c1, c2, c3, c4, c5, c6]
